@@ -83,6 +83,16 @@ def _paren_variants(args):
     return n, fails
 
 
+def _red_work(chunk):
+    out = []
+    n = 0
+    for case in chunk:
+        n += 2
+        for cname, sig, src in c02.check_one(case, ["statement", "initializer"]):
+            out.append((sig, src))
+    return n, out
+
+
 def spec_level(ctx, tier):
     wd = workdir("c17")
     try:
@@ -172,6 +182,22 @@ def run(tier):
             ctx.fail(sig, dict(kind="parens", text=text))
     ctx.count(n, nontrivial=len(jobs), traces=n)
     ctx.note("population_redundant_parentheses", dict(programs=len(jobs), variants=n))
+    # redundant parentheses, specification side: the "red" derivations of CExpr put one redundant pair around any
+    # operand (leaves and the base operands of postfix / unary / sizeof expressions included); the tree is the one
+    # of the derivation without them
+    red = []
+    res = tlc("CExpr", c02.cfg_text(2, ["red"], True, inv=False), on_export=red.append)
+    tlc_ok(res, "CExpr red")
+    ctx.add_tlc(res, "CExpr ops<=2, one redundant pair around any operand")
+    if tier == "quick":
+        red = rnd.sample(red, min(len(red), 30000))
+    n = 0
+    for cnt, fails in pmap(_red_work, [red[i:i + 300] for i in range(0, len(red), 300)], chunk=1):
+        n += cnt
+        for sig, src in fails:
+            ctx.fail("redundant parentheses (CExpr red): " + sig, dict(kind="parens", text=src))
+    ctx.count(n, nontrivial=len(red), traces=n)
+    ctx.note("population_redundant_parentheses_spec", dict(derivations=len(red), parses=n))
     if allp:
         ctx.sample(dict(tokens=" ".join(allp[0])[:300], layouts=MODES))
     ctx.assumptions += ["the baseline is the one-line layout of the same token sequence; #pragma lines are kept on lines of their own"]
